@@ -110,6 +110,9 @@ fn dispatch(prop: &str, tier: &str, seed: u64, rest: &[String]) -> i32 {
             }
             let mut rep = Report::new(prop, ev_tier, seed);
             vh::histprops::run(prop, &mut rep, tier);
+            if prop == "C11" {
+                vh::c11sweep::run(&mut rep, tier);
+            }
             if prop == "C14" {
                 vh::c14perm::run(&mut rep, tier);
                 vh::c14perm::run_deep(&mut rep, tier);
